@@ -321,7 +321,7 @@ def offsets_overflow_or_exact(n, w):
 
 
 # ------------------------------------------------------------------------------------------------ compile -> decompile with symbolic values
-def _compile_gpos(subtables, font):
+def _compile_gpos(subtables, font, lookup_type=2):
     from fontTools.ttLib import newTable
     t = newTable('GPOS')
     t.table = ot.GPOS()
@@ -332,7 +332,7 @@ def _compile_gpos(subtables, font):
     t.table.FeatureList.FeatureRecord = []
     t.table.LookupList = ot.LookupList()
     lk = ot.Lookup()
-    lk.LookupType = 2
+    lk.LookupType = lookup_type
     lk.LookupFlag = 0
     lk.SubTable = list(subtables)
     lk.SubTableCount = len(subtables)
@@ -371,3 +371,157 @@ def gpos_compile_decompile(kind):
     after = t2.table.LookupList.Lookup[0].SubTable
     ob('subtable-count', len(after) == len(subs))
     ob('same-pairs', same_pairs(before, after, GLYPHS))
+
+
+# ------------------------------------------------------------------------------------------------ other subtable splitters
+def _markbase(nclasses, nmarks, nbases, tag=''):
+    st = ot.MarkBasePos()
+    st.Format = 1
+    st.MarkCoverage = ot.Coverage()
+    st.MarkCoverage.glyphs = ['m%d' % i for i in range(nmarks)]
+    st.BaseCoverage = ot.Coverage()
+    st.BaseCoverage.glyphs = ['b%d' % i for i in range(nbases)]
+    st.ClassCount = nclasses
+    st.MarkArray = ot.MarkArray()
+    st.MarkArray.MarkRecord = []
+    for i in range(nmarks):
+        mr = ot.MarkRecord()
+        mr.Class = i % nclasses
+        mr.MarkAnchor = ot.Anchor()
+        mr.MarkAnchor.Format = 1
+        mr.MarkAnchor.XCoordinate, mr.MarkAnchor.YCoordinate = V.int('%smk%d_x' % (tag, i), -1000, 1000), V.int('%smk%d_y' % (tag, i), -1000, 1000)
+        st.MarkArray.MarkRecord.append(mr)
+    st.MarkArray.MarkCount = nmarks
+    st.BaseArray = ot.BaseArray()
+    st.BaseArray.BaseRecord = []
+    for b in range(nbases):
+        br = ot.BaseRecord()
+        br.BaseAnchor = []
+        for c in range(nclasses):
+            a = ot.Anchor()
+            a.Format = 1
+            a.XCoordinate, a.YCoordinate = V.int('%sbs%d_%d_x' % (tag, b, c), -1000, 1000), V.int('%sbs%d_%d_y' % (tag, b, c), -1000, 1000)
+            br.BaseAnchor.append(a)
+        st.BaseArray.BaseRecord.append(br)
+    st.BaseArray.BaseCount = nbases
+    return st
+
+
+def mark_attach(subtables, mark, base):
+    """GPOS lookup type 4 from the spec: (mark anchor, base anchor) of the first subtable covering both glyphs, else None"""
+    for st in subtables:
+        if mark in st.MarkCoverage.glyphs and base in st.BaseCoverage.glyphs:
+            mr = st.MarkArray.MarkRecord[st.MarkCoverage.glyphs.index(mark)]
+            br = st.BaseArray.BaseRecord[st.BaseCoverage.glyphs.index(base)]
+            if mr.Class >= len(br.BaseAnchor) or br.BaseAnchor[mr.Class] is None:
+                return None
+            ba = br.BaseAnchor[mr.Class]
+            return (mr.MarkAnchor.XCoordinate, mr.MarkAnchor.YCoordinate, ba.XCoordinate, ba.YCoordinate)
+    return None
+
+
+@kernel('C06', funcs=['ttLib/tables/otTables.py:splitMarkBasePos'],
+        bounds='MarkBasePos with 2-5 mark classes (odd and even), 3-6 marks spread over the classes, 2 bases, every anchor coordinate symbolic: after '
+               'splitMarkBasePos every (mark, base) pair attaches with the same two anchors as before, through the lookup [old\', new\']',
+        quick=[dict(nc=2, nm=3), dict(nc=3, nm=4), dict(nc=5, nm=6)], thorough=[dict(nc=c, nm=m) for c in (2, 3, 4, 5) for m in (c, c + 1, 6)])
+def split_markbase_preserves_attachment(nc, nm):
+    st = _markbase(nc, nm, 2)
+    marks, bases = list(st.MarkCoverage.glyphs), list(st.BaseCoverage.glyphs)
+    want = {(m, b): mark_attach([st], m, b) for m in marks for b in bases}
+    new = ot.MarkBasePos()
+    ok = ot.splitMarkBasePos(st, new, None)
+    ob('split-done', ok)
+    if not ok:
+        return
+    conds = []
+    for (m, b), w in want.items():
+        got = mark_attach([st, new], m, b)
+        conds.append(conj([eq(x, y) for x, y in zip(got, w)]) if got is not None and w is not None else (got is None and w is None))
+    ob('same-attachment', conj(conds))
+    ob('class-counts-consistent', st.ClassCount == max(len(r.BaseAnchor) for r in st.BaseArray.BaseRecord) and new.ClassCount == max(len(r.BaseAnchor) for r in new.BaseArray.BaseRecord)
+       and all(r.Class < st.ClassCount for r in st.MarkArray.MarkRecord) and all(r.Class < new.ClassCount for r in new.MarkArray.MarkRecord))
+
+
+@kernel('C06', funcs=['ttLib/tables/otTables.py:splitMultipleSubst', 'ttLib/tables/otTables.py:splitAlternateSubst', 'ttLib/tables/otTables.py:splitLigatureSubst',
+                      'ttLib/tables/otTables.py:splitSinglePos'],
+        bounds='GSUB Multiple / Alternate / Ligature substitution subtables of 4-5 entries and SinglePos format 2 with symbolic values, split for an overflow '
+               'reported on the Coverage or on entry k (every k the splitters accept): the union of the two halves is the original mapping, no key in both',
+        quick=[dict(kind=k, item=i) for k in ('multiple', 'alternate', 'ligature') for i in ('Coverage', 3)] + [dict(kind='singlepos', item='Coverage')],
+        thorough=[dict(kind=k, item=i) for k in ('multiple', 'alternate', 'ligature') for i in ('Coverage', 2, 3, 4)] + [dict(kind='singlepos', item='Coverage')])
+def split_substitutions_partition(kind, item):
+    names = ['a', 'b', 'c', 'd', 'e']
+    itemName = {'multiple': 'Sequence', 'alternate': 'AlternateSet', 'ligature': 'LigatureSet'}.get(kind)
+    rec = Rec(itemName='Coverage' if item == 'Coverage' else itemName, itemIndex=None if item == 'Coverage' else item)
+    if kind == 'multiple':
+        st, new = ot.MultipleSubst(), ot.MultipleSubst()
+        st.mapping = {n: [n + '.1', n + '.2'] for n in names}
+        orig = dict(st.mapping)
+        ok = ot.splitMultipleSubst(st, new, rec)
+        a, b = st.mapping, new.mapping
+    elif kind == 'alternate':
+        st, new = ot.AlternateSubst(), ot.AlternateSubst()
+        st.alternates = {n: [n + '.alt1', n + '.alt2'] for n in names}
+        orig = dict(st.alternates)
+        ok = ot.splitAlternateSubst(st, new, rec)
+        a, b = st.alternates, new.alternates
+    elif kind == 'ligature':
+        st, new = ot.LigatureSubst(), ot.LigatureSubst()
+        st.ligatures = {}
+        for n in names:
+            lig = ot.Ligature()
+            lig.Component, lig.LigGlyph = ['x'], n + '_x'
+            st.ligatures[n] = [lig]
+        orig = dict(st.ligatures)
+        ok = ot.splitLigatureSubst(st, new, rec)
+        a, b = st.ligatures, new.ligatures
+    else:
+        st, new = ot.SinglePos(), ot.SinglePos()
+        st.Format, st.ValueFormat = 2, 4
+        st.Coverage = ot.Coverage()
+        st.Coverage.glyphs = list(names)
+        st.Value = []
+        for n in names:
+            v = OB.ValueRecord()
+            v.XAdvance = V.int('adv_' + n, -1000, 1000)
+            st.Value.append(v)
+        orig = dict(zip(names, [v.XAdvance for v in st.Value]))
+        ok = ot.splitSinglePos(st, new, rec)
+        a = dict(zip(st.Coverage.glyphs, [v.XAdvance for v in st.Value]))
+        b = dict(zip(new.Coverage.glyphs, [v.XAdvance for v in new.Value])) if ok else {}
+        ob('arrays-parallel', len(st.Value) == len(st.Coverage.glyphs) and (not ok or len(new.Value) == len(new.Coverage.glyphs)))
+    ob('split-done', bool(ok))
+    ob('halves-disjoint', not (set(a) & set(b)))
+    ob('union-is-the-original', set(a) | set(b) == set(orig))
+    merged = dict(a)
+    merged.update(b)
+    ob('values-unchanged', conj([(eq(merged[k], v) if kind == 'singlepos' else merged[k] is v) for k, v in orig.items() if k in merged]))
+    ob('both-halves-non-empty', len(a) > 0 and len(b) > 0)
+
+
+@kernel('C06', funcs=['ttLib/tables/otTables.py:Coverage.preWrite', 'ttLib/tables/otTables.py:Coverage.postRead', 'ttLib/tables/otBase.py:BaseTable.compile'],
+        bounds='SinglePos format 2 whose Coverage lists its 3-4 glyphs in an order that is NOT the glyph-id order (glyph ids are a symbolic permutation): '
+               'compiled with the real compiler and decompiled again, every glyph still has its own value (coverage index order is preserved)',
+        shims=['struct', 'array'], quick=[dict(n=3)], thorough=[dict(n=3), dict(n=4)], max_paths=100000, collide=True)
+def unsorted_coverage_keeps_records(n):
+    names = ['g%d' % i for i in range(n)]
+    font = SymFont(n + 1)
+    st = ot.SinglePos()
+    st.Format, st.ValueFormat = 2, 4
+    st.Coverage = ot.Coverage()
+    st.Coverage.glyphs = list(names)
+    st.Value = []
+    want = {}
+    for g in names:
+        v = OB.ValueRecord()
+        v.XAdvance = V.int('adv_' + g, -1000, 1000)
+        st.Value.append(v)
+        want[g] = v.XAdvance
+    st.ValueCount = n
+    from fontTools.config import Config
+    font.cfg = Config()
+    data, t2 = _compile_gpos([st], font, lookup_type=1)
+    observe('length', len(tobytes(data)))
+    st2 = t2.table.LookupList.Lookup[0].SubTable[0]
+    got = {g: (st2.Value.XAdvance if st2.Format == 1 else st2.Value[i].XAdvance) for i, g in enumerate(st2.Coverage.glyphs)}
+    ob('same-glyphs', sorted(got) == sorted(want))
+    ob('values-follow-glyphs', conj([eq(got[g], want[g]) if g in got else False for g in want]))
